@@ -129,7 +129,9 @@ class ComparamInstance:
             return None
 
         result = value_list[idx]
-        if result is None and isinstance(subparam, (Comparam, ComplexComparam)):
+        if (result is None or result == "") and isinstance(subparam, (Comparam, ComplexComparam)):
+            # the sub-value was omitted (empty SIMPLE-VALUE tags are
+            # represented by empty strings), so use the default
             result = subparam.physical_default_value
         if not isinstance(result, str):
             odxraise()
